@@ -21,6 +21,8 @@ const smtHeader = `(declare-datatypes ((Slice 0)) (((mk_slice (s_arr Int) (s_off
 (define-fun fld_addr ((a Int) (i Int)) Int (+ (* a 1000000007) i))
 (declare-fun item_val_arr (Int) Int)
 (declare-fun err_is (Iface Iface) Bool)
+(declare-fun atoi_val (String) Int)
+(declare-fun atoi_err (String) Iface)
 (declare-fun bit_and (Int Int) Int)
 (declare-fun bit_or (Int Int) Int)
 (declare-fun bit_xor (Int Int) Int)
